@@ -628,9 +628,10 @@ htp_status_t htp_tx_req_process_body_data_ex(htp_tx_t *tx, const void *data, siz
         case HTP_COMPRESSION_GZIP:
         case HTP_COMPRESSION_DEFLATE:
         case HTP_COMPRESSION_LZMA:
-            // In severe memory stress these could be NULL
+            // In severe memory stress these could be NULL. After the last
+            // chunk of a chunked body they have been shut down already.
             if (tx->connp->req_decompressor == NULL)
-                return HTP_ERROR;
+                return d.is_last ? HTP_OK : HTP_ERROR;
 
             // Send data buffer to the decompressor.
             htp_gzip_decompressor_decompress(tx->connp->req_decompressor, &d);
